@@ -468,6 +468,13 @@ module N =
     | Lt -> true
     | _ -> false
 
+  (** val min : n -> n -> n **)
+
+  let min n0 n' =
+    match compare n0 n' with
+    | Gt -> n'
+    | _ -> n0
+
   (** val div2 : n -> n **)
 
   let div2 = function
@@ -771,17 +778,6 @@ let gen_step b g st o =
         let (t', s') = p in
         ((t', (Some s')), (if eq then RInt N0 else RErr nEQ))
       | None -> (st, (RErr eINVAL))))
-
-(** val run : backend -> geom -> gstate -> op list -> res list **)
-
-let rec run b g st = function
-| [] -> []
-| o :: r -> let (st', x) = gen_step b g st o in x :: (run b g st' r)
-
-(** val run0 : backend -> geom -> op list -> res list **)
-
-let run0 b g ops =
-  run b g (b.b_empty, None) ops
 
 type fset = n -> bool
 
@@ -1436,17 +1432,58 @@ let bA al =
     (Obj.magic ba_set); b_clear = (fun _ -> Obj.magic N0); b_copy = (fun b ->
     (b, b)) }
 
-(** val run_rb : geom -> op list -> res list **)
+(** val copy_bits : backend -> nat -> n -> t -> t -> t **)
+
+let rec copy_bits b n0 i src dst =
+  match n0 with
+  | O -> dst
+  | S k ->
+    let (src', r) = b.b_test src i in
+    copy_bits b k (N.add i (Npos XH)) src'
+      (if r then fst (b.b_mark dst i) else dst)
+
+(** val resize_geom : geom -> n -> n -> geom **)
+
+let resize_geom g ne nre =
+  { g_start = g.g_start; g_end = ne; g_real_end = nre; g_cbits = g.g_cbits }
+
+(** val resize_state : backend -> geom -> n -> gstate -> gstate **)
+
+let resize_state b g ne st =
+  let keep = N.min g.g_end ne in
+  ((copy_bits b (N.to_nat (N.sub (N.add keep (Npos XH)) g.g_start)) N0
+     (fst st) b.b_empty), None)
+
+type sop =
+| SOp of op
+| SResize of n * n
+
+(** val run_seg : backend -> geom -> gstate -> sop list -> res list **)
+
+let rec run_seg b g st = function
+| [] -> []
+| s :: r ->
+  (match s with
+   | SOp o -> let (st', x) = gen_step b g st o in x :: (run_seg b g st' r)
+   | SResize (ne, nre) ->
+     RVoid :: (run_seg b (resize_geom g ne nre) (resize_state b g ne st) r))
+
+(** val run_seg0 : backend -> geom -> sop list -> res list **)
+
+let run_seg0 b g ops =
+  run_seg b g (b.b_empty, None) ops
+
+(** val run_rb : geom -> sop list -> res list **)
 
 let run_rb g ops =
-  run0 rB g ops
+  run_seg0 rB g ops
 
-(** val run_ba : n -> geom -> op list -> res list **)
+(** val run_ba : n -> geom -> sop list -> res list **)
 
 let run_ba al g ops =
-  run0 (bA al) g ops
+  run_seg0 (bA al) g ops
 
-(** val run_fs : geom -> op list -> res list **)
+(** val run_fs : geom -> sop list -> res list **)
 
 let run_fs g ops =
-  run0 fSet g ops
+  run_seg0 fSet g ops
